@@ -24,6 +24,13 @@ no reply may be owed for the call: the script has no reply for it, so every orac
 the commands that follow. A run whose refused call left the owed-reply queue longer than it found it and that
 then violates any oracle is reported once, as phantom-owed-reply-after-unencodable-address/<smtp|lmtp>/<op>.
 With SMTPUTF8 in effect the command must carry the address UTF-8 encoded and pairs like any other.
+
+MAIL parameters: mailfrom(address, data_size=, auth=) is driven with auth in {absent, False, ASCII identity,
+identity needing xtext, non-ASCII identity} and data_size in {absent, int}, the greeting advertising AUTH / SIZE
+/ SMTPUTF8 or not. A call that raises UnicodeEncodeError (non-ASCII identity, AUTH advertised, no SMTPUTF8) is
+judged like an unencodable address (phantom-owed-reply-after-unencodable-mail-parameter/<smtp|lmtp>); a call
+that does not raise must put on the wire SIZE=<n> iff a size was given and SIZE is advertised, AUTH=... iff auth
+was given and AUTH is advertised (AUTH=<> for False); the xtext form of an identity is recorded, not judged.
 """
 import re
 import random
@@ -40,7 +47,8 @@ LEVEL_TEXT = ('Real Client and LmtpClient driven through generated command seque
               'MAIL, RCPT, RCPT, DATA, end-of-data|RSET x PIPELINING advertised or not x SMTP/LMTP x content/empty '
               'content x 2 line-count patterns, plus seeded random multi-transaction sequences (0..4 recipients, '
               'custom commands, unsolicited replies, failed greetings, missing RSET, non-ASCII addresses with '
-              'SMTPUTF8 advertised or not), and a designed stratum of 1 280 non-ASCII-address scripts; each under whole / bytewise / '
+              'SMTPUTF8 advertised or not, MAIL auth=/data_size= arguments with AUTH/SIZE advertised or not), and '
+              'two designed strata of 1 280 scripts each (non-ASCII addresses; MAIL parameters); each under whole / bytewise / '
               'per-reply / seeded delivery of the reply stream. Pairing, exact consumption and lock-step judged on '
               'every run. Held = held on the runs reported.')
 LEVEL_NOTE = ('Trusted: ScriptSocket, ReplyServer (command/content splitter and release rule, 70 lines), the '
@@ -53,7 +61,10 @@ RULE = ('case = one command sequence with its reply script (code and 1..3 lines 
         'if DATA got 3xx else RSET) x pipelining x client class x (send_data|send_empty_data) x 2 line-count '
         'patterns; utf8: non-ASCII address in MAIL / first RCPT / second RCPT / both RCPT / MAIL and RCPT x '
         'SMTPUTF8 advertised or not x PIPELINING x client class x MAIL class {2,5} x RCPT classes {2,5}^2 x '
-        '(send_data|send_empty_data) x 2 line-count patterns, followed by a plain second transaction; rand: '
+        '(send_data|send_empty_data) x 2 line-count patterns, followed by a plain second transaction; mailp: '
+        'auth in {absent, False, ASCII, xtext-needing, non-ASCII} x data_size in {absent, int} x AUTH x SIZE x '
+        'SMTPUTF8 x PIPELINING advertised or not x client class x MAIL class {2,5} x 2 line-count patterns, '
+        'same continuation; rand (additionally 25% of MAIL with auth=, 30% with data_size=): '
         'seeded sequences of 1..3 transactions in protocol shape with deviations (8% of addresses non-ASCII, '
         'SMTPUTF8 advertised in 45%). non-trivial & '
         'distinct = distinct script with (an error-class reply before the last command and a multi-line reply) or '
@@ -68,7 +79,8 @@ ASSUMPTIONS = ['ScriptSocket hands out exactly the scripted segments',
                'a non-ASCII address without SMTPUTF8 in effect is refused by the client (UnicodeEncodeError); a '
                'client that sent something instead makes the run inconclusive, not violated']
 REQUIRED_HITS = ['reply-paired', 'tail-compared', 'pipelined-batch', 'lockstep-checked',
-                 'lmtp-data-replies-paired', 'unencodable-address-refused', 'utf8-address-sent-as-utf8']
+                 'lmtp-data-replies-paired', 'unencodable-address-refused', 'utf8-address-sent-as-utf8',
+                 'unencodable-mail-parameter-refused', 'mail-parameters-compared']
 SHARDS = {'quick': 12, 'thorough': 16}
 BUDGET = {'quick': 60, 'thorough': 900}
 EXHAUSTIVE = {'quick': False, 'thorough': False}
@@ -88,11 +100,12 @@ MODES = ['whole', 'byte', 'reply', 'rand', 'rand']
 MARK = re.compile(r'r(\d+)x')
 UTF8_SENDERS = ['sénder%d@x.test', 'ユーザー%d@x.test']
 UTF8_RCPTS = ['rçpt%d@x.test', 'r%d@bücher.test', '\U0001F600%d@x.test']
+AUTH_IDS = ['user@x.test', 'us er+=<x>@x.test', '\xfcser@b\xfccher.test']     # plain, needs xtext, non-ASCII
 SYNC_OPS = ('banner', 'ehlo', 'lhlo', 'helo', 'data', 'rset', 'quit', 'custom', 'get_reply')
 
 
 # ------------------------------------------------------------------ generators
-def op(name, code, nl=1, arg=None, adv=False, codes=None, utf8=False):
+def op(name, code, nl=1, arg=None, adv=False, codes=None, utf8=False, ext=(), auth=None, size=None):
     d = {'op': name, 'code': code, 'nl': nl}
     if arg is not None:
         d['arg'] = arg
@@ -100,6 +113,12 @@ def op(name, code, nl=1, arg=None, adv=False, codes=None, utf8=False):
         d['adv'] = adv
         if utf8:
             d['utf8'] = True
+        for x in ext:            # further keywords of the 250 greeting: 'AUTH', 'SIZE'
+            d[x.lower() + '_adv'] = True
+    if auth is not None:         # mailfrom(auth=...): False or an identity; key absent = argument not given
+        d['auth'] = auth
+    if size is not None:
+        d['size'] = size
     if codes is not None:
         d['codes'] = codes
     return d
@@ -158,10 +177,42 @@ def gen_utf8(seed):
                                 yield {'kind': 'utf8', 'lmtp': lmtp, 'ops': ops, 'rs': seed}
 
 
+def gen_mailparams(seed):
+    """Designed stratum: the keyword arguments of mailfrom() x what the greeting advertises."""
+    for lmtp in (False, True):
+        for adv, utf8, a_adv, s_adv in itertools.product((True, False), repeat=4):
+            ext = (('AUTH',) if a_adv else ()) + (('SIZE',) if s_adv else ())
+            for auth in (None, False) + tuple(AUTH_IDS):
+                for size in (None, 12345):
+                    for mc in (2, 5):
+                        for pat in (0, 1):
+                            nls = [1 + (i + pat) % 3 for i in range(13)]
+                            ops = [op('banner', '220', nls[0]),
+                                   op('lhlo' if lmtp else 'ehlo', '250', nls[1], arg='me.test', adv=adv, utf8=utf8,
+                                      ext=ext),
+                                   op('mail', CLASS_CODE[mc], nls[2], arg='s0@x.test', auth=auth, size=size),
+                                   op('rcpt', '250', nls[3], arg='r0@x.test'),
+                                   op('data', '354', nls[5]),
+                                   op('send_data', '250', nls[6], arg=pat, codes=['250']),
+                                   op('mail', '250', nls[7], arg='s2@x.test', size=7),
+                                   op('rcpt', '250', nls[8], arg='r2@x.test'),
+                                   op('data', '354', nls[9]),
+                                   op('send_empty_data', '250', nls[10], arg=0, codes=['250']),
+                                   op('quit', '221', nls[11])]
+                            yield {'kind': 'mailp', 'lmtp': lmtp, 'ops': ops, 'rs': seed}
+
+
 def gen_random(rnd):
     lmtp = rnd.random() < 0.45
     adv = rnd.random() < 0.6
     utf8 = rnd.random() < 0.45
+
+    def ext():
+        return tuple(x for x in ('AUTH', 'SIZE') if rnd.random() < 0.5)
+
+    def mailkw():
+        return {'auth': rnd.choice([False] + AUTH_IDS) if rnd.random() < 0.25 else None,
+                'size': rnd.choice((0, 512, 10 ** 9)) if rnd.random() < 0.3 else None}
 
     def sender(t):
         return (rnd.choice(UTF8_SENDERS) if rnd.random() < 0.08 else 's%d@x.test') % t
@@ -178,7 +229,7 @@ def gen_random(rnd):
     hello_code = rnd.choices(['250', rnd.choice(CODES[2]), cls((0, 0, 50, 50))], (85, 5, 10))[0]
     if lmtp:
         hello_code = '250'
-    ops.append(op('lhlo' if lmtp else 'ehlo', hello_code, nl(), arg='me.test', adv=adv, utf8=utf8))
+    ops.append(op('lhlo' if lmtp else 'ehlo', hello_code, nl(), arg='me.test', adv=adv, utf8=utf8, ext=ext()))
     if not lmtp and hello_code[0] != '2':
         ops.append(op('helo', cls((90, 0, 5, 5)), nl(), arg='me.test'))
     nr = 0
@@ -189,8 +240,8 @@ def gen_random(rnd):
             ops.append(op('get_reply', cls((30, 0, 60, 10)), nl()))
         if not lmtp and rnd.random() < 0.05:
             ops.append(op('ehlo', '250', nl(), arg='again.test', adv=rnd.random() < 0.5,
-                          utf8=rnd.random() < 0.5))
-        ops.append(op('mail', cls((70, 4, 13, 13)), nl(), arg=sender(t)))
+                          utf8=rnd.random() < 0.5, ext=ext()))
+        ops.append(op('mail', cls((70, 4, 13, 13)), nl(), arg=sender(t), **mailkw()))
         for i in range(rnd.choice((0, 1, 1, 2, 2, 3, 4))):
             ops.append(op('rcpt', cls((55, 5, 20, 20)), nl(), arg=rcpt(nr)))
             nr += 1
@@ -213,7 +264,7 @@ def gen_random(rnd):
 
 def gen_cases(tier, seed, shard, nshards):
     n = 0
-    for case in itertools.chain(gen_utf8(seed), gen_exhaustive(seed)):
+    for case in itertools.chain(gen_utf8(seed), gen_mailparams(seed), gen_exhaustive(seed)):
         if n % nshards == shard:
             yield case
         n += 1
@@ -224,14 +275,14 @@ def gen_cases(tier, seed, shard, nshards):
 
 # ------------------------------------------------------------------ the plan: script + expectations
 class Entry(object):
-    __slots__ = ('k', 'need', 'code', 'nl', 'op', 'addr', 'wire', 'hello', 'adv', 'utf8')
+    __slots__ = ('k', 'need', 'code', 'nl', 'op', 'addr', 'wire', 'hello', 'adv', 'utf8', 'ext')
 
 
 def make_wire(e):
     if e.hello and e.code == '250':
         lines = ['r%dx hello' % e.k] + (['PIPELINING'] if e.adv else []) + \
                 ['X-EXT%d r%dx' % (j, e.k) for j in range(e.nl - 1)] + ['8BITMIME'] + \
-                (['SMTPUTF8'] if e.utf8 else [])
+                (['SMTPUTF8'] if e.utf8 else []) + e.ext
     else:
         who = ' for=<%s>' % e.addr if e.addr else ''
         lines = ['r%dx %s%s l%d' % (e.k, e.op, who, j) for j in range(e.nl)]
@@ -247,7 +298,9 @@ def build_plan(case):
     units, accepted, adv_eff, flags = 0, [], False, set()
     # non-ASCII addresses: ops the client is expected to refuse (no command, no reply), units whose command line
     # must carry the address UTF-8 encoded
-    utf8_eff, refused, utf8_units, op_unit = False, set(), {}, []
+    utf8_eff, refused, utf8_units, op_unit = False, {}, {}, []
+    # MAIL parameters: what the greeting in effect allows; per MAIL unit the parameters that must be on the wire
+    auth_eff, size_eff, mail_units, utf8_at = False, False, {}, []
     # classification aid only (never part of a verdict): recipients answered 2xx since the last LHLO-250 / RSET /
     # end-of-data, i.e. including those of a transaction the server dropped when it accepted a new MAIL
     unreset, stale_ops = [], {}
@@ -256,25 +309,43 @@ def build_plan(case):
         e = Entry()
         e.k, e.need, e.code, e.nl, e.op, e.addr = len(entries), need, code, o['nl'], o['op'], addr
         e.hello, e.adv, e.utf8 = hello, bool(o.get('adv')), bool(o.get('utf8'))
+        e.ext = (['AUTH PLAIN LOGIN'] if o.get('auth_adv') else []) + (['SIZE 10485760'] if o.get('size_adv') else [])
         e.wire = make_wire(e)
         entries.append(e)
         return e.k
 
     for o in case['ops']:
         name, code = o['op'], o['code']
+        utf8_at.append(utf8_eff)
         if name in ('banner', 'get_reply'):
             per_op.append([add(o, code, units)])
             op_unit.append(None)
             continue
         if name in ('mail', 'rcpt') and not o['arg'].isascii():
             if not utf8_eff:
-                refused.add(len(per_op))
+                refused[len(per_op)] = 'address'
                 per_op.append([])
                 op_unit.append(None)
                 flags.add('unencodable-address-%s' % name)
                 continue
             utf8_units[units + 1] = o['arg'].encode('utf-8')
             flags.add('utf8-address-%s' % name)
+        if name == 'mail':
+            auth = o.get('auth')
+            if isinstance(auth, str) and not auth.isascii() and auth_eff and not utf8_eff:
+                refused[len(per_op)] = 'mail-parameter'
+                per_op.append([])
+                op_unit.append(None)
+                flags.add('unencodable-mail-auth-parameter')
+                continue
+            want = {}
+            if 'size' in o and size_eff:
+                want[b'SIZE'] = str(o['size']).encode('ascii')
+            if auth is not None and auth_eff:
+                want[b'AUTH'] = b'<>' if auth is False else auth
+            mail_units[units + 1] = want
+            if 'size' in o or auth is not None:
+                flags.add('mail-with-size-or-auth-argument')
         units += 1
         op_unit.append(units)
         must_sync[units] = not adv_eff
@@ -301,6 +372,7 @@ def build_plan(case):
         if name in ('ehlo', 'lhlo') and code == '250':
             adv_eff = bool(o['adv'])
             utf8_eff = bool(o.get('utf8'))
+            auth_eff, size_eff = bool(o.get('auth_adv')), bool(o.get('size_adv'))
             accepted, unreset = [], []
         elif name == 'rcpt':
             if code[0] == '2':
@@ -320,7 +392,8 @@ def build_plan(case):
                 flags.add('lmtp-mixed-acceptance')
     return {'entries': entries, 'per_op': per_op, 'verbs': verbs, 'must_sync': must_sync,
             'content_units': content_units, 'data3': data3, 'flags': flags, 'piped': piped,
-            'stale_ops': stale_ops, 'refused': refused, 'utf8_units': utf8_units, 'op_unit': op_unit}
+            'stale_ops': stale_ops, 'refused': refused, 'utf8_units': utf8_units, 'op_unit': op_unit,
+            'mail_units': mail_units, 'utf8_at': utf8_at}
 
 
 # ------------------------------------------------------------------ scripted peer
@@ -414,7 +487,12 @@ def call(client, o):
     if name == 'helo':
         return [(None, client.helo(o['arg']))]
     if name == 'mail':
-        return [(None, client.mailfrom(o['arg']))]
+        kw = {}
+        if 'size' in o:
+            kw['data_size'] = o['size']
+        if 'auth' in o:
+            kw['auth'] = o['auth']
+        return [(None, client.mailfrom(o['arg'], **kw))]
     if name == 'rcpt':
         return [(None, client.rcptto(o['arg']))]
     if name == 'data':
@@ -462,22 +540,27 @@ def run_once(case, plan, mode, rs, R):
         try:
             got = call(client, o)
         except UnicodeEncodeError as ex:
-            if name not in ('mail', 'rcpt') or o['arg'].isascii():
+            if name not in ('mail', 'rcpt') or (o['arg'].isascii() and str(o.get('auth', '')).isascii()):
                 raise
             if i not in plan['refused']:
-                aborted = (i, name, 'refused-with-smtputf8')
-                viol('utf8-address-refused-although-smtputf8-in-effect/%s/%s' % (who, name),
-                     '%s(%r) raised %r although the last 250 greeting advertised SMTPUTF8' % (name, o['arg'], ex),
-                     op_index=i)
+                aborted = (i, name, 'refused-although-encodable')
+                if plan['utf8_at'][i]:
+                    viol('utf8-address-refused-although-smtputf8-in-effect/%s/%s' % (who, name),
+                         '%s(%r, auth=%r) raised %r although the last 250 greeting advertised SMTPUTF8'
+                         % (name, o['arg'], o.get('auth'), ex), op_index=i)
+                else:
+                    viol('mail-parameter-refused-although-auth-not-advertised/%s' % who,
+                         'mail(%r, auth=%r) raised %r although AUTH= is not to be sent' % (o['arg'], o['auth'], ex),
+                         op_index=i)
                 break
-            R.hit('unencodable-address-refused')
+            R.hit('unencodable-%s-refused' % plan['refused'][i])
             after = (len(client.reply_queue), client.io.send_buffer.getvalue(), len(ss.sent))
             if after[1:] != before[1:]:
                 viol('bytes-sent-for-refused-address/%s/%s' % (who, name),
                      '%s(%r) raised but wrote %r' % (name, o['arg'], after[1][len(before[1]):] or ss.sent[-1]),
                      op_index=i)
             if after[0] != before[0] and phantom is None:
-                phantom = (i, name)      # signature only; the verdict comes from the oracles that follow
+                phantom = (i, name, plan['refused'][i])     # signature only; the verdict comes from what follows
             continue
         except WouldBlock:
             srv.release()
@@ -590,6 +673,31 @@ def run_once(case, plan, mode, rs, R):
             else:
                 viol('utf8-address-not-sent-as-utf8/%s/%s' % (who, srv.seen[unit - 1].decode('latin-1')),
                      'command %r does not carry %r' % (srv.lines[unit], raw))
+    for unit, want in plan['mail_units'].items():
+        if unit not in srv.lines:
+            continue
+        line = srv.lines[unit]
+        got = dict((t.split(b'=', 1) + [b''])[:2] for t in line.split(b'>', 1)[-1].split())
+        got = {k.upper(): v for k, v in got.items()}
+        R.hit('mail-parameters-compared')
+        for key in (b'SIZE', b'AUTH'):
+            kn = key.decode().lower()
+            if key in got and key not in want:
+                viol('mail-parameter-sent-although-not-applicable/%s/%s' % (who, kn),
+                     '%r carries %s= although it was not given or %s is not advertised' % (line, kn.upper(), kn.upper()))
+            elif key in want and key not in got:
+                viol('mail-parameter-missing/%s/%s' % (who, kn), '%r lacks %s=' % (line, kn.upper()))
+        if set(got) - {b'SIZE', b'AUTH'}:
+            viol('unclassified/unknown-mail-parameter/%s' % who, '%r' % line)
+        if b'SIZE' in want and got.get(b'SIZE', want[b'SIZE']) != want[b'SIZE']:
+            viol('mail-parameter-value-differs/%s/size' % who, '%r, size given %r' % (line, want[b'SIZE']))
+        if b'AUTH' in want and b'AUTH' in got:
+            if want[b'AUTH'] == b'<>':
+                if got[b'AUTH'] != b'<>':
+                    viol('mail-parameter-value-differs/%s/auth-null' % who, '%r for auth=False' % line)
+            else:       # the xtext form is recorded, not judged
+                R.observe('mail-auth-xtext-form', (want[b'AUTH'], got[b'AUTH']))
+                R.count('recorded/xtext(%s)=%s' % (ascii(want[b'AUTH']), got[b'AUTH'].decode('latin-1')))
     if phantom is not None:
         # a refused call left a reply owed; what the oracles saw from that call on is one defect
         late = [v for v in out if v[2].get('op_index', len(case['ops'])) >= phantom[0]]
@@ -598,10 +706,15 @@ def run_once(case, plan, mode, rs, R):
             mech, what, kw = late[0]
             kw = dict(kw, refused_op_index=phantom[0], refused_address=case['ops'][phantom[0]]['arg'],
                       consequences=sorted(set(v[0] for v in late)))
-            out.append(('phantom-owed-reply-after-unencodable-address/%s/%s'
-                        % (who, {'mail': 'mailfrom', 'rcpt': 'rcptto'}[phantom[1]]),
-                        '%s(%r) raised UnicodeEncodeError but left a reply owed; then: %s'
-                        % (phantom[1], case['ops'][phantom[0]]['arg'], what), kw))
+            if phantom[2] == 'address':
+                mech = 'phantom-owed-reply-after-unencodable-address/%s/%s' \
+                    % (who, {'mail': 'mailfrom', 'rcpt': 'rcptto'}[phantom[1]])
+            else:
+                mech = 'phantom-owed-reply-after-unencodable-mail-parameter/%s' % who
+                kw['refused_auth'] = case['ops'][phantom[0]].get('auth')
+            out.append((mech, '%s(%r%s) raised UnicodeEncodeError but left a reply owed; then: %s'
+                        % (phantom[1], case['ops'][phantom[0]]['arg'],
+                           ', auth=%r' % kw['refused_auth'] if 'refused_auth' in kw else '', what), kw))
     R.observe('flush-shape', tuple(srv.batches))
     return out, aborted
 
@@ -613,7 +726,8 @@ def lmtp_or_smtp_pipelining(plan, i):
 
 
 def script_shape(case, plan):
-    return tuple((o['op'], o['code'][0], o['nl'], i in plan['refused'], plan['op_unit'][i] in plan['utf8_units'])
+    return tuple((o['op'], o['code'][0], o['nl'], plan['refused'].get(i), plan['op_unit'][i] in plan['utf8_units'],
+                  tuple(sorted(plan['mail_units'].get(plan['op_unit'][i], ()))))
                  for i, o in enumerate(case['ops'])) + \
         (case['lmtp'], tuple((bool(o.get('adv')), bool(o.get('utf8'))) for o in case['ops'] if 'adv' in o))
 
